@@ -424,6 +424,10 @@ namespace Pinned
 /-- The process-global mutable state of the library (hand-kept; C16 refers to it).  Each entry with the
 reason why it cannot make one call's outcome depend on an earlier call ("sticky state"). -/
 def globals : List GlobalSite := [
+  -- per-VISITOR state: the class attribute is the immutable default `()`; both writes go to the instance of the
+  -- MapFiller that fill_in_map creates afresh for every call, and the second restores the default in a `finally`
+  ⟨"core/algorithm/fill_in_map.py", "MapFiller.visit_Macro", "class_attr_shadowed_by_instance", "self.macro_parameters = [param.name for param in macro.parameters]"⟩,
+  ⟨"core/algorithm/fill_in_map.py", "MapFiller.visit_Macro", "class_attr_shadowed_by_instance", "self.macro_parameters = ()"⟩,
   -- Python's once-per-location warning registry; affects only whether a warning is printed again
   ⟨"core/result.py", "ProbabilisticSubcircuit.__init__", "process_state_call", "warnings.warn(msg, category=RuntimeWarning)"⟩,
   -- per-OBJECT cache that shadows the class attribute `_gates = None`; write-once, not read by __eq__ /
